@@ -97,7 +97,10 @@ pub fn inject_suite(out: &mut Out, coll: &str, rng: &mut Rng, n_hist: usize, len
                     let pre = pre_state.unwrap_or_else(|e| format!("ABSFAIL {}", e));
                     let post = match &post_state { Ok(s) => s.clone(), Err(e) => format!("ABSFAIL {}", e) };
                     writeln!(r.out.req, "{} {} | {} | inj {}", coll, op.text(), pre, k).unwrap();
-                    writeln!(r.out.exp, "out=panic | st={} | tr=*", post).unwrap();
+                    match r.real.abs_note() {
+                        Some(n) => writeln!(r.out.exp, "out=panic | st={} | tr=* | abs={}", post, n).unwrap(),
+                        None => writeln!(r.out.exp, "out=panic | st={} | tr=*", post).unwrap(),
+                    }
                     writeln!(r.out.ctx, "H{} {}", r.hid, r.ops.len() - 1).unwrap();
                     r.out.lines += 1;
                 }
